@@ -20,6 +20,8 @@ pub fn check(tier: Tier) -> Check {
     // a Maximum Packet Size so small that the client can send no request at all (2 / 3 bytes): every
     // inbound QoS>0 PUBLISH and PUBREL is acknowledged all the same (the limit binds requests, C12)
     parts.push(Part::new("C08/reconnect", json!({}), 0, 60));
+    // a rolling population of 1 .. 9 subscriptions; QoS 1 / QoS 2 messages naming every live one
+    parts.push(Part::new("C08/rolling", json!({"rounds": tier.pick(10, 30)}), 0, 120));
     // QoS 1 / QoS 2 messages for a stream that lags 70 000 messages behind: acknowledged all the same
     parts.push(Part::new("C08/deep-backlog", json!({"n": 70_000}), 0, 120));
     parts.push(Part::new("C08/acks", json!({"depth": tier.pick(3, 4), "pids": [1, 2, 65535], "flavour": 9}), 0, tier.pick(40, 300)));
@@ -76,6 +78,9 @@ pub fn scenario(name: &str, params: &Value) -> Scenario {
         // (the C09 reconnect histories, judged by C08's rule: one acknowledgement per inbound packet -
         // nothing is written for packets of the previous connection)
         return super::c09::reset("C08", name.to_string(), params.clone());
+    }
+    if name == "C08/rolling" {
+        return super::c07::rolling("C08", name.to_string(), params.clone());
     }
     if name == "C08/deep-backlog" {
         return super::c07::deep_backlog("C08", name.to_string(), params.clone());
